@@ -1,7 +1,7 @@
 (** Comparators for C02 cases (no proofs).  Messages are numbers: 0 = the consumed object
     itself, i = the i-th fresh message of the handler, 50+p = the message appended by the
     middleware at position p; +1000 = content differs from what was produced. *)
-From WM Require Import Base.Prelude Message.Model Handler.RouterHandle.
+From WM Require Import Base.Prelude Message.Model Handler.RouterHandle Handler.RouterFrom.
 
 Record c02_case := C02 {
   k_init : settle;                      (* settlement of the message when the subscriber handed it over
@@ -33,18 +33,17 @@ Definition arrived (w : settle) : mstate :=
 Definition c02_mismatch (c : c02_case) : bool :=
   let '(m, tr) := handle_from (arrived (k_init c)) (k_pk c) (k_pb c) (c02_chain c) in
   negb (list_eqb hevent_eqb tr (k_tr c) && settle_eqb (st m) (k_final c)).
-(** a message that arrives already settled: the chain is still invoked exactly once, the Router
-    still makes its one settle call (which cannot change anything: first wins, C03), outputs are
-    published as for any other message *)
-Definition arrived_settled_monitor (c : c02_case) : bool :=
-  Nat.eqb (count_calls (k_tr c)) 1 && Nat.eqb (count_settles (k_tr c)) 1
-  && settle_eqb (k_final c) (k_init c)
-  && list_eqb (list_eqb N.eqb) (publishes (k_tr c)) (expected_publishes (k_pk c) (c02_chain c)).
+(** the verdict: the acceptor [c02_monitor_from] with the arrival settlement of the case
+    (Props/C02.v: C02_from_model_accepted — every model run from every reachable arrival state
+    passes it; for an unsettled arrival it is [c02_monitor], C02_monitor_from_unsettled_is_monitor).
+    For a message that arrives already settled it demands: the chain is still invoked exactly
+    once, the Router still makes its one settle call, last (which cannot change anything: first
+    wins, C03), the final settlement is that of arrival, inside Publish the message shows the
+    arrival settlement, outputs are published as for any other message.  (It subsumes the
+    acceptor [arrived_settled_monitor] of the earlier rounds: every conjunct of that one is a
+    conjunct of this one.) *)
 Definition c02_violates (c : c02_case) : bool :=
-  match k_init c with
-  | Unsettled => negb (c02_monitor N.eqb (k_pk c) (k_pb c) (c02_chain c) (k_tr c) (k_final c))
-  | _ => negb (arrived_settled_monitor c)
-  end.
+  negb (c02_monitor_from N.eqb (k_init c) (k_pk c) (k_pb c) (c02_chain c) (k_tr c) (k_final c)).
 
 Definition c02_mismatches (cs : list c02_case) : list nat := positions (map c02_mismatch cs).
 Definition c02_violations (cs : list c02_case) : list nat := positions (map c02_violates cs).
